@@ -12,6 +12,7 @@ case := dict(kind='app', spec=<zoo app spec>, ops=[['A', rule, methods, name, ov
 """
 import html
 import io
+import os
 import re
 
 from harness import core, wsgizoo as zoo
@@ -112,10 +113,11 @@ def gen_case(rng):
         adds.append(len(ops))
         ops.append(['A', rule, arg, rng.choice([None] * 6 + ['n1', 'n2']), rng.random() < .15])
         names |= {m.upper() for m in ms}
-        if ast is not None:
-            paths.append('/' + G.path_for(rng, ast))
-        else:
-            paths.append(path_for_rule(rng, rule))
+        for _ in range(2):          # two paths per rule: a warm-up and the measured request differ in their values
+            if ast is not None:
+                paths.append('/' + G.path_for(rng, ast))
+            else:
+                paths.append(path_for_rule(rng, rule))
         if rng.random() < .2:
             k = rng.choice(adds)
             dm = ops[k][2] if isinstance(ops[k][2], list) else [ops[k][2]]
@@ -680,6 +682,8 @@ def install(cls, quick=(700, 250), thorough=(30000, 6000)):
 
     def corr(self, rng, n):
         out = o_corr(self, rng, n)
+        if os.environ.get('VERIF_NO_APP'):       # measurement aid: what the check sees without the composed stream
+            return out
         if getattr(self, 'stats', None) is None:
             self.stats = {}
         out += corr_stream(rng, sizes(self)[0], self.stats)
@@ -687,6 +691,8 @@ def install(cls, quick=(700, 250), thorough=(30000, 6000)):
 
     def search(self, rng, n, seeds):
         evals, findings = o_search(self, rng, n, [s for s in seeds if not (isinstance(s, dict) and s.get('kind') == 'app')])
+        if os.environ.get('VERIF_NO_APP'):
+            return evals, findings
         if getattr(self, 'stats', None) is None:
             self.stats = {}
         ev, fs = search_stream(rng, sizes(self)[1], pid, seeds, self.stats)
